@@ -10,11 +10,14 @@ import (
 )
 
 type c07Conn struct {
-	id     string
-	open   bool
-	client int64 // id of the last successful handshake on this connection, 0 if none
-	zombie bool  // re-registered under the same id: the record in the registry is a fresh unauthenticated one
-	sp     *stream.StreamProcessor
+	id       string
+	open     bool
+	client   int64 // id of the last successful handshake on this connection, 0 if none
+	zombie   bool  // re-registered under the same id: the record in the registry is a fresh unauthenticated one
+	released bool  // closed by its own disconnect or by the stale sweep (both call CloseConnection); a kicked or
+	// superseded connection is only evicted from the registry with its stream closed - its read loop,
+	// which is not part of this harness, then notices and releases the rest
+	sp *stream.StreamProcessor
 }
 
 // For every history of connects, handshakes (incl. re-authentication and duplicate
@@ -51,6 +54,14 @@ func Harness_C07_histories() {
 			if !c.open || c.zombie {
 				continue
 			}
+			if verif_Bool() {
+				// a login the auth handler refuses (unknown client): the connection stays what it was -
+				// possibly a registered control connection that never authenticated
+				vsHandshake(sm, c.id, &packet.HandshakeRequest{ClientID: 1003, ConnectionType: "control", Protocol: "tcp"})
+				verif_Assert("C07.handshake.refused_not_indexed", sm.GetControlConnectionByClientID(1003) == nil)
+				verif_Cover("C07.refused_login")
+				break
+			}
 			id := clients[verif_Choose(2)]
 			err := vsHandshake(sm, c.id, &packet.HandshakeRequest{ClientID: id, ConnectionType: "control", Protocol: "tcp"})
 			verif_Assert("C07.handshake.ok", err == nil)
@@ -78,6 +89,7 @@ func Harness_C07_histories() {
 			sm.CloseConnection(c.id)
 			c.open = false
 			c.client = 0
+			c.released = true
 			if had {
 				verif_Assert("C07.close.count", sm.clientRegistry.Count() == before-1)
 			}
@@ -123,11 +135,19 @@ func Harness_C07_histories() {
 			c.zombie = true // no further traffic on it in this history; lookups must not return the evicted record
 			verif_Cover("C07.reregistered")
 		case 4: // periodic stale-connection sweep
+			had := map[string]bool{}
+			for _, c := range conns {
+				had[c.id] = sm.clientRegistry.GetByConnID(c.id) != nil
+			}
 			sm.cleanupStaleConnections()
 			for _, c := range conns {
-				if c.open && !c.zombie && sm.clientRegistry.GetByConnID(c.id) == nil && c.client != 0 {
+				// swept: authenticated or not (a control connection that never logged in, or whose
+				// login was refused, times out too)
+				if c.open && !c.zombie && had[c.id] && sm.clientRegistry.GetByConnID(c.id) == nil {
 					c.open = false
 					c.client = 0
+					c.released = true
+					verif_Cover("C07.swept")
 				}
 			}
 		}
@@ -146,6 +166,10 @@ func Harness_C07_histories() {
 		}
 		for _, c := range conns {
 			if !c.open {
+				// counts return to what they were: the session's own connection table forgets it too
+				if c.released {
+					verif_Assert("C07.gone.base_connection", sm.getConnectionByConnID(c.id) == nil)
+				}
 				verif_Assert("C07.gone.byconn", sm.clientRegistry.GetByConnID(c.id) == nil)
 				for _, id := range clients {
 					cc := sm.GetControlConnectionByClientID(id)
